@@ -37,8 +37,9 @@ def S(names):
     return "{" + ", ".join('"%s"' % n for n in names) + "}"
 
 
-def inst(name, topo, features, static=(), faults=(), acl=True, **kw):
+def inst(name, topo, features, static=(), faults=(), acl=True, off=(), **kw):
     c = {"Topo": '"%s"' % topo, "ACLOn": "TRUE" if acl else "FALSE", "Features": S(features), "Static": S(static),
+         "Off": S(off),
          "Faults": S(faults), "MaxRes": 2, "MaxPerIP": 1, "MaxPerASN": 2, "MaxCirc": 1, "TTL": 2, "GCP": 2,
          "Limited": "TRUE", "DataLimit": 3, "Duration": 2, "HSTimeout": 2, "MaxAtt": 1, "Chunks": "{1, 2}"}
     for k, v in kw.items():
@@ -58,7 +59,7 @@ def replay_instances(ctx):
         # per-ASN cap (IPv6), an address without IP, ACL on reservations (no connects)
         inst("asn", "asn", ("time", "updown"), static=("n1", "b2", "b3"), MaxRes=3, MaxPerIP=2, MaxPerASN=1, MaxAtt=0),
         # the hop/stop handshake with a failure at each of its exits, two attempts racing on the counters
-        inst("conn", "conn", ("updown", "cabort", "abort"), static=("b2",), faults=ALL_FAULTS, MaxAtt=2, MaxCirc=1,
+        inst("conn", "conn", ("updown", "cabort", "abort"), static=("b2", "r1"), faults=ALL_FAULTS, MaxAtt=2, MaxCirc=1,
              DataLimit=1, Chunks="{1}", MaxRes=3, MaxPerIP=2),
         # one circuit of a limited relay: payloads around the data limit in each direction, duration,
         # handshake time-out, half-close, reset
@@ -75,7 +76,7 @@ def replay_instances(ctx):
             # the ASN population with probes, the client leaving before the answer, only the no-IP link static
             inst("asn-full", "asn", ("time", "updown", "probe", "rabort"), static=("n1",), MaxRes=3, MaxPerIP=2, MaxPerASN=1),
             # MaxCircuits 2: the caps are reached by two attempts of the same peer
-            inst("conn2", "conn", ("updown", "abort"), static=("a2", "b2", "r1", "a3"), faults=("open", "nonok"), MaxAtt=2,
+            inst("conn2", "conn", ("updown", "abort"), static=("a2", "b2", "r1", "a3"), off=("u1",), faults=("open", "nonok"), MaxAtt=2,
                  MaxCirc=2, DataLimit=1, Chunks="{1}", MaxRes=3, MaxPerIP=2),
             # longer circuits: data limit 4 with writes of 1, 3 and 5 bytes, duration 3 units
             inst("data-big", "data", ("updown", "sclose", "abort", "time", "cabort", "quietreserve"), static=("a2",),
@@ -89,10 +90,10 @@ def exhaustive_instances(ctx):
     if ctx.tier == "thorough":
         return [
             # handshakes racing with expiry, collection, handshake time-out and circuit deadlines
-            inst("conn-time", "conn", ("updown", "cabort", "abort", "time"), static=("a2", "b2", "r1"),
+            inst("conn-time", "conn", ("updown", "cabort", "abort", "time"), static=("a2", "b2", "r1"), off=("u1",),
                  faults=("open", "reset", "nonok"), MaxAtt=2, MaxCirc=1, DataLimit=1, Chunks="{1}", MaxRes=3, MaxPerIP=2),
             # three attempts in flight, MaxCircuits 2
-            inst("conn3", "conn", ("updown", "abort"), static=("a2", "b2", "r1", "a3"), faults=("open", "nonok"), MaxAtt=3,
+            inst("conn3", "conn", ("updown", "abort"), static=("a2", "b2", "r1", "a3"), off=("u1",), faults=("open", "nonok"), MaxAtt=3,
                  MaxCirc=2, DataLimit=1, Chunks="{1}", MaxRes=3, MaxPerIP=2),
         ]
     return []
@@ -110,13 +111,33 @@ def _exhaustive(args):
     return name, r.distinct, r.generated, r.wall
 
 
-def _edge_stats(g):
+def _expect_violated(args):
+    """A design-level finding still open in /repo: TLC must find the property violated (else the model no longer
+    contains the behaviour and the run is vacuous for it)."""
+    ctx, (name, consts), prop = args
+    cfg = _cfg(consts, [(PROPS, "PROPERTIES " + prop)])
+    r = tlc.run(ctx, "C11_MC", "gen_%s_%s.cfg" % (name, prop), cfg_text=cfg, workers=1, timeout=600, name="x" + name + prop)
+    if r.ok or r.violated != prop:
+        raise MachineryError("%s is not violated in instance %s (got %s)" % (prop, name, r.violated))
+    return prop, r.depth
+
+
+def _edge_stats(g, conf):
     st = collections.Counter()
+    links = conf["links"]     # link -> [peer, address, Stat().Limited]
+    relayed_unlimited = {l for l, v in links.items() if v[1] in ("relay", "relayu") and not v[2]}
+    relayed_limited = {l for l, v in links.items() if v[1] in ("relay", "relayu") and v[2]}
     for sk, op, _t in g.edges:
         n = op["name"]
         st[n] += 1
+        if n in ("connect", "reserve") and op["l"] in relayed_unlimited:
+            st[n + ":requester-relayed-unlimited"] += 1
+        if n in ("connect", "reserve") and op["l"] in relayed_limited:
+            st[n + ":requester-relayed-limited"] += 1
         if n == "connect":
             st["connect:" + op["exit"]] += 1
+            if op["via"] in relayed_unlimited:
+                st["connect:destination-over-relayed-unlimited"] += 1
             if op["exit"] in ("hs", "swrite") and g.states[sk][RSVP][op["d"]] < 0:
                 st["connect:served-by-expired-uncollected-reservation"] += 1
         elif n == "reserve":
@@ -199,7 +220,7 @@ def _replay_instance(args):
     g = graph.Graph(r.inits, r.edges)
     if g.n_edges() == 0:
         raise MachineryError("no edges printed for " + name)
-    stats = _edge_stats(g)
+    stats = _edge_stats(g, conf[0])
     hdr = {"name": name, "consts": consts, "conf": conf[0], "edges": g.n_edges(), "states": g.n_states()}
     wit = {}
     for iname, rname, ops in REGRESSIONS:
@@ -214,6 +235,8 @@ def _replay_instance(args):
 
 
 REQUIRED_KINDS = (
+    "connect:requester-relayed-unlimited", "connect:requester-relayed-limited", "reserve:requester-relayed-unlimited",
+    "reserve:requester-relayed-limited", "connect:destination-over-relayed-unlimited",
     "reserve:ok", "reserve:relayed", "reserve:acl", "reserve:total", "reserve:ip", "reserve:asn", "reserve:noip",
     "reserve:refused-refresh", "tick:collected", "down:reservation-dropped",
     "connect:hs", "connect:relayed", "connect:acl", "connect:norsvp", "connect:srccap", "connect:dstcap",
@@ -248,7 +271,9 @@ def run(ctx):
         fg = pg.submit(_go, ctx, "^TestVerifC11Direct$", None, {"VERIF_C11_ITERS": iters})
         fr = [pr.submit(_replay_instance, (ctx, i, beh_dir)) for i in rinsts]
         fe = [pe.submit(_exhaustive, (ctx, i, 2 if len(einsts) > 1 else 1)) for i in einsts]
+        fx = pe.submit(_expect_violated, (ctx, rinsts[0], "DestinationDirect"))
         rres = [f.result() for f in fr]
+        expected = [fx.result()]
         log("C11: graphs and walks done at %.1fs" % ctx.wall())
         eres = [f.result() for f in fe]
         direct = fg.result()
@@ -293,13 +318,15 @@ def run(ctx):
         exhaustive_only={r[0]: {"states": r[1], "transitions": r[2], "tlc_wall_s": r[3]} for r in eres},
         replay_transitions_in_graphs=edges_total, replay_steps_executed=res["steps"],
         replay_distinct_transitions_executed=res["distinct"], replay_transition_kinds=dict(tot),
+        design_level_expected_violations=[{"property": e[0], "tlc_depth": e[1]} for e in expected],
         regression_walks={k: {"instance": v["instance"], "ops": [json.dumps(o, sort_keys=True) for o in v["ops"]]} for k, v in wit.items()},
         direct_scenarios=direct["replayed"], direct_steps=direct["steps"], direct_extra=direct.get("extra"),
         divergences_L2=div, notes=ctx.notes[:10], rule=res.get("rule"))
     extension.finish_all(ctx, ext, cov)
     return {"level": "model_checking", "coverage": cov, "assumptions": [
         "bounded instances: <=3 peers, <=6 connections, caps 1-3, MaxCircuits 1-2, <=3 attempts in flight, TTL 2-3 units of 30 s, data limit 3 bytes (BufferSize 2); production-sized limits only in the direct forwarding scenarios",
-        "fake host: stream handler invoked directly, NewStream returns an in-memory stop stream on the connection the model chose, Connectedness computed like the swarm (Limited with only /p2p-circuit connections); streams of a closed connection are reset locally as the swarm does",
+        "fake host: stream handler invoked directly; a connection's remote address (/p2p-circuit or not) and its Stat().Limited are independent attributes (relayed+limited, relayed+unlimited, direct+unlimited; direct+limited does not exist: only the circuit transport sets Limited); Connectedness and the connection for the stop stream are chosen as the swarm does (Connected iff a non-limited connection; non-limited before limited, direct before relayed); streams of a closed connection are reset locally as the swarm does",
+        "the statement's 'neither party reached the relay through another relay' is keyed on the /p2p-circuit address only (for the requester of RESERVE/CONNECT and for the connection carrying the stop stream)",
         "resource refusals are injected by tightening the relay service's limits (a mutable Limit object in a real resource manager) for exactly the call under test",
         "a live reservation = granted (status OK seen by the client), not past its expiry, holder still directly connected; expired-but-uncollected reservations are not counted against the caps and may still serve connects",
         "a connection is not closed while a circuit only writes to (no longer reads from) one of its streams; Relay.Close only without circuits in flight",
